@@ -1,0 +1,22 @@
+//go:build verif
+
+package vm
+
+import (
+	"github.com/skx/evalfilter/v2/environment"
+	"github.com/skx/evalfilter/v2/object"
+)
+
+// Read-only accessors used by the verification harness in /verif.
+
+// VerifBytecode returns the main body as the machine will run it.
+func (vm *VM) VerifBytecode() []byte { return []byte(vm.bytecode) }
+
+// VerifFunctions returns the user-defined functions as the machine will run them.
+func (vm *VM) VerifFunctions() map[string]environment.UserFunction { return vm.functions }
+
+// VerifConstants returns the constant pool the machine uses.
+func (vm *VM) VerifConstants() []object.Object { return vm.constants }
+
+// VerifStackDepth returns the number of values on the machine's stack.
+func (vm *VM) VerifStackDepth() int { return vm.stack.Size() }
